@@ -1,5 +1,7 @@
 (* C17 — Worker: one running instance while held, stopped only after every holder is done.
-   Statements only; every proof is `exact` of a lemma of Proofs/Worker.v.
+   Statements only; every proof is `exact` of a lemma of Proofs/Worker.v, Proofs/WorkerMore.v (wind-down from every
+   reachable state, a locked-out Do is served, witnesses against the literal reading of clause 2) or Proofs/WorkerWait.v
+   (the variant of the model in which callers parked on x.mu are part of the state).
    Model/Worker.v: `step fl s l` is one atomic step of the interleaving model of worker.go (labels: a caller's Do critical
    section, a holder's done(), the next step of the k-th watcher goroutine, the next step of the k-th do goroutine /
    instance function).  `faithful` = the code as it is; `reachable s` = s is the result of `run faithful init sched`
@@ -9,8 +11,8 @@
    return on its own while stop is open (label LIE, ghost flag `early`); every clause below covers both, and only the
    "is running" part of clause 2 is conditional on early = false. *)
 From Coq Require Import List Arith Bool.
-From BB.Model Require Import Worker.
-From BB.Proofs Require Worker.
+From BB.Model Require Import Worker WorkerWait.
+From BB.Proofs Require Worker WorkerMore WorkerWait.
 Import ListNotations.
 
 Definition reachable := Proofs.Worker.reachable.
@@ -39,6 +41,36 @@ Theorem C17_held_means_running : forall s, reachable s ->
                (early ik = false -> donec ik = false /\ (ip ik = IReady \/ ip ik = IRun)).
 Proof. exact Proofs.Worker.held_means_running. Qed.
 Print Assumptions C17_held_means_running.
+
+(* Why clause 2 is NOT stated as "held => an instance function is executing" (the literal text), in plain words.
+   The theorem above says: while somebody holds the worker, the stop channel of the current instance is open and the
+   watcher has not begun to stop it -- unconditionally; and the function of that instance is "not yet started or running"
+   (IReady or IRun) -- only for functions that have not returned on their own (early = false).  Two weakenings:
+     IReady.  Do returns right after the statement `go x.do(fn)`; the new goroutine may not have been scheduled yet, so
+       at the instant Do returns no function is executing.  This is a scheduling artefact (the start step is always
+       enabled), but it makes the literal clause false: witness C17_held_before_function_starts_refuted.
+     early = false.  worker.go cannot keep fn running: fn is the user's code and may return whenever it likes, also while
+       stop is open and holders are outstanding.  Then the holders hold an instance whose function has RETURNED, and a
+       further Do joins that instance instead of starting a new one (x.stop is still non-nil).  The literal clause fails
+       for such a function: witness C17_held_but_function_returned_refuted.  The library's own part (stop stays open, the
+       instance is not torn down, no second instance is started) holds regardless and is the unconditional part above.
+   `early` is a ghost flag set only by the label LIE ("the function returns without having seen stop closed"); a function
+   that honours "run until stop is closed" never takes LIE, and for it the clause holds in the form IReady \/ IRun. *)
+Theorem C17_held_before_function_starts_refuted :
+  exists sched, let s := run faithful init sched in
+    Proofs.Worker.held s = true /\ countb running (insts s) = 0 /\ map ip (insts s) = [IReady] /\
+    map stopc (insts s) = [false].
+Proof. exact Proofs.WorkerMore.held_before_function_starts_refuted. Qed.
+Print Assumptions C17_held_before_function_starts_refuted.
+
+Theorem C17_held_but_function_returned_refuted :
+  exists sched, let s := run faithful init sched in
+    Proofs.Worker.held s = true /\ countb running (insts s) = 0 /\ countb alive (insts s) = 0 /\
+    xinst s = Some 0 /\ map stopc (insts s) = [false] /\ map early (insts s) = [true] /\
+    exists s', step faithful s LDo = Some s' /\ length (insts s') = 1 /\ countb running (insts s') = 0 /\
+               map hdone (holders s') = [false; false].
+Proof. exact Proofs.WorkerMore.held_but_function_returned_refuted. Qed.
+Print Assumptions C17_held_but_function_returned_refuted.
 
 (* Clause 3.  A stop channel goes from open to closed only by the step of its own watcher at worker.go:67, taken while
    holding mu, and at that moment every done function handed out so far has been called. *)
@@ -94,6 +126,139 @@ Theorem C17_every_instance_stopped : forall s, reachable s ->
   step faithful s LDo <> None.
 Proof. exact Proofs.Worker.every_instance_stopped. Qed.
 Print Assumptions C17_every_instance_stopped.
+
+(* Clause 5, from EVERY reachable state (not only at terminal ones).
+   (iii) Progress, with the obligations named.  While x.stop/x.done are set (instance k exists) one of these is enabled:
+         the next step of k's watcher (library); the do goroutine starting the function or closing x.done after the
+         function returned (library); the done function of an OUTSTANDING holder (the callers' obligation: "a done func
+         which must be called"), only while mu is free; or the instance function, whose stop channel IS closed, noticing
+         it / returning (the instance function's obligation).  Nothing else is ever needed: no new Do, and no function
+         returning on its own (LIE). *)
+Theorem C17_progress : forall s k, reachable s -> xinst s = Some k ->
+  exists ik, nth_error (insts s) k = Some ik /\
+   ( step faithful s (LW k) <> None
+     \/ ((ip ik = IReady \/ ip ik = IRet) /\ step faithful s (LI k) <> None)
+     \/ (mu s = false /\ exists h hh, nth_error (holders s) h = Some hh /\ hdone hh = false /\
+                                      step faithful s (LDone h) <> None)
+     \/ (stopc ik = true /\ (ip ik = IRun \/ ip ik = ISaw) /\ step faithful s (LI k) <> None) ).
+Proof. exact Proofs.WorkerMore.progress. Qed.
+Print Assumptions C17_progress.
+
+(* (iv) "Nothing but a new Do can move" is decidable: it holds exactly when no instance exists (x.stop = x.done = nil). *)
+Theorem C17_quiescent_decidable : forall s, reachable s ->
+  ((forall l, l <> LDo -> step faithful s l = None) <-> Proofs.WorkerMore.quiescentb s = true).
+Proof. exact Proofs.WorkerMore.quiescent_decidable. Qed.
+Print Assumptions C17_quiescent_decidable.
+
+(* (v) Wind-down.  From every reachable state there is a schedule made only of watcher steps, do-goroutine steps and
+       done() calls (drain_label: no new Do, no LIE), every pick of which is enabled (taken = length), of at most
+       `measure s` steps, after which nothing but a new Do can move -- and then, by C17_every_instance_stopped, every
+       done function has been called and every instance ever started has exited with its stop channel closed.  Together
+       with (i) (every Do-free execution takes at most `measure s` steps, C17_steps_bounded) and (iii): once callers
+       stop calling Do and call their done functions, EVERY execution winds down in boundedly many steps. *)
+Theorem C17_drain : forall s, reachable s ->
+  exists sched,
+    (forall l, In l sched -> Proofs.WorkerMore.drain_label l) /\
+    (forall l, In l sched -> l <> LDo) /\
+    Proofs.WorkerMore.taken faithful s sched = length sched /\
+    length sched + measure (run faithful s sched) <= measure s /\
+    (forall l, l <> LDo -> step faithful (run faithful s sched) l = None).
+Proof. exact Proofs.WorkerMore.drain. Qed.
+Print Assumptions C17_drain.
+
+Theorem C17_drain_simple : forall s, reachable s ->
+  exists sched, (forall l, In l sched -> l <> LDo) /\ length sched <= measure s /\
+                forall l, l <> LDo -> step faithful (run faithful s sched) l = None.
+Proof. exact Proofs.WorkerMore.drain_simple. Qed.
+Print Assumptions C17_drain_simple.
+
+(* the number of enabled picks of ANY schedule without a new Do is bounded by the measure (every variant, every state) *)
+Theorem C17_steps_bounded : forall fl sched s, (forall l, In l sched -> l <> LDo) ->
+  Proofs.WorkerMore.taken fl s sched + measure (run fl s sched) <= measure s.
+Proof. exact Proofs.WorkerMore.taken_bound. Qed.
+Print Assumptions C17_steps_bounded.
+
+(* Clause 4c.  A Do that is locked out (its critical section is disabled) is eventually served.  Do is disabled exactly
+   while the watcher of the current instance k is between its decision to stop and the clearing of stop/done; then every
+   done function has been called, x.wg is nil, and the whole state has measure <= 8 ... *)
+Theorem C17_blocked_do_profile : forall s, reachable s -> step faithful s LDo = None ->
+  exists k ik, xinst s = Some k /\ nth_error (insts s) k = Some ik /\ mu s = true /\
+    (wp ik = WClose \/ wp ik = WRecv \/ wp ik = WClear) /\
+    (forall hh, In hh (holders s) -> hdone hh = true) /\ xwg s = None /\ measure s <= 8.
+Proof. exact Proofs.WorkerMore.blocked_do_profile. Qed.
+Print Assumptions C17_blocked_do_profile.
+
+(* ... and after between 1 and 7 enabled steps, all of them steps of k's watcher or do goroutine (closing stop, the
+   function noticing and returning, close(done), clearing: nobody else has to do anything), no instance exists; in that
+   state the Do gets through, starts a FRESH instance (new goroutines and channels, appended as the last instance) and
+   holds it, every earlier instance having exited with its stop channel closed. *)
+Theorem C17_blocked_do_served : forall s, reachable s -> step faithful s LDo = None ->
+  exists k sched,
+    xinst s = Some k /\
+    (forall l, In l sched -> l = LW k \/ l = LI k) /\
+    Proofs.WorkerMore.taken faithful s sched = length sched /\ 1 <= length sched <= 7 /\
+    let s1 := run faithful s sched in
+    xinst s1 = None /\
+    exists s2 g, step faithful s1 LDo = Some s2 /\
+      xinst s2 = Some (length (insts s1)) /\ insts s2 = insts s1 ++ [new_inst] /\
+      holders s2 = holders s1 ++ [{| hgen := g; hdone := false |}] /\
+      forall j ij, nth_error (insts s1) j = Some ij ->
+                   ip ij = IExit /\ wp ij = WExit /\ stopc ij = true /\ donec ij = true.
+Proof. exact Proofs.WorkerMore.blocked_do_served. Qed.
+Print Assumptions C17_blocked_do_served.
+
+(* Clause 4, with the waiting callers IN the state (Model/WorkerWait.v: PArrive = a caller reaches x.mu.Lock() in Do,
+   PEnter = one parked caller executes the critical section -- the same `step faithful _ LDo` -- and returns, PL l = any
+   other step of the base model).  (a) the base component only visits reachable states of Model/Worker.v, so every
+   clause above holds in the variant; (b) no caller is lost or duplicated: calls made = callers parked + done functions
+   handed out; *)
+Theorem C17_waiters_base_reachable : forall p, Proofs.WorkerWait.preachable p -> reachable (base p).
+Proof. exact Proofs.WorkerWait.pbase_reachable. Qed.
+Print Assumptions C17_waiters_base_reachable.
+
+Theorem C17_waiters_accounting : forall p, Proofs.WorkerWait.preachable p ->
+  arrived p = waiting p + length (holders (base p)).
+Proof. exact Proofs.WorkerWait.accounting. Qed.
+Print Assumptions C17_waiters_accounting.
+
+(* (c) a parked caller is served: after at most 7 enabled steps of the stopping instance's watcher / do goroutine (none
+   if the mutex is free) one parked caller gets through, is handed a new outstanding done function for an instance whose
+   stop channel is open (held_okb), the others stay parked; if it had been locked out, the instance is a fresh one; *)
+Theorem C17_waiter_served : forall p n, Proofs.WorkerWait.preachable p -> waiting p = S n ->
+  exists sched,
+    (forall a, In a sched -> exists k, xinst (base p) = Some k /\ (a = PL (LW k) \/ a = PL (LI k))) /\
+    length sched <= 7 /\ Proofs.WorkerWait.ptaken p sched = length sched /\
+    (step faithful (base p) LDo <> None -> sched = []) /\
+    let p1 := prun p sched in
+    waiting p1 = S n /\
+    exists p2 g, pstep p1 PEnter = Some p2 /\ waiting p2 = n /\ arrived p2 = arrived p /\
+      holders (base p2) = holders (base p1) ++ [{| hgen := g; hdone := false |}] /\
+      Proofs.Worker.held_okb (base p2) = true /\
+      (step faithful (base p) LDo = None ->
+         xinst (base p2) = Some (length (insts (base p1))) /\ insts (base p2) = insts (base p1) ++ [new_inst] /\
+         forall j ij, nth_error (insts (base p1)) j = Some ij ->
+                      ip ij = IExit /\ wp ij = WExit /\ stopc ij = true /\ donec ij = true).
+Proof. exact Proofs.WorkerWait.waiter_served. Qed.
+Print Assumptions C17_waiter_served.
+
+(* (d) under EVERY schedule: each event other than a new arrival strictly decreases `pmeasure` (so once arrivals cease
+   at most `pmeasure p` events happen), and a state in which nothing but a new arrival can happen has NO parked caller
+   and no instance: nobody is stranded in Do, whatever the interleaving (no fairness assumption is needed because
+   nothing can be postponed for ever). *)
+Theorem C17_waiters_measure_decreases : forall p a p', pstep p a = Some p' -> a <> PArrive -> pmeasure p' < pmeasure p.
+Proof. exact Proofs.WorkerWait.pmeasure_decreases. Qed.
+Print Assumptions C17_waiters_measure_decreases.
+
+Theorem C17_waiters_steps_bounded : forall sched p, (forall a, In a sched -> a <> PArrive) ->
+  Proofs.WorkerWait.ptaken p sched + pmeasure (prun p sched) <= pmeasure p.
+Proof. exact Proofs.WorkerWait.ptaken_bound. Qed.
+Print Assumptions C17_waiters_steps_bounded.
+
+Theorem C17_no_waiter_stranded : forall p, Proofs.WorkerWait.preachable p ->
+  (forall a, a <> PArrive -> pstep p a = None) ->
+  waiting p = 0 /\ xinst (base p) = None /\ forall l, l <> LDo -> step faithful (base p) l = None.
+Proof. exact Proofs.WorkerWait.no_waiter_stranded. Qed.
+Print Assumptions C17_no_waiter_stranded.
 
 (* No Go panic (close of a nil or closed channel, negative WaitGroup counter) is reachable. *)
 Theorem C17_never_panics : forall s, reachable s -> panicked s = false.
